@@ -54,6 +54,7 @@ func (c *Ctx) txInfos(rel string) []txInfo {
 			continue
 		}
 		pk := map[string]bool{}
+		received := c.receivedPacketTypes(rel)
 		ms := types.NewMethodSet(types.NewPointer(tn.Type()))
 		for i := 0; i < ms.Len(); i++ {
 			fn, ok := ms.At(i).Obj().(*types.Func)
@@ -72,11 +73,17 @@ func (c *Ctx) txInfos(rel string) []txInfo {
 			if nm == nil || nm.Obj().Pkg() == nil {
 				continue
 			}
+			// only packets this package RECEIVES make a handler (a helper method that takes the transaction's own
+			// request packet, e.g. the stored UNSUBSCRIBE, is not one)
 			switch nm.Obj().Pkg().Path() {
 			case pkPackets1:
-				pk[nm.Obj().Name()] = true
+				if received == nil || received["*packets1."+nm.Obj().Name()] {
+					pk[nm.Obj().Name()] = true
+				}
 			case pahoPkts:
-				pk["mqtt."+strings.TrimSuffix(nm.Obj().Name(), "Packet")] = true
+				if received == nil || received["*mqtt."+nm.Obj().Name()] {
+					pk["mqtt."+strings.TrimSuffix(nm.Obj().Name(), "Packet")] = true
+				}
 			}
 		}
 		names := sortedKeys(pk)
@@ -187,3 +194,27 @@ func (c *Ctx) clPub1Tx() string       { return c.txHaving("client", []string{"Pu
 func (c *Ctx) clPub2Tx() string       { return c.txHaving("client", []string{"Pubrec", "Pubcomp"}) }
 func (c *Ctx) clBrokerPub2Tx() string { return c.txHaving("client", []string{"Pubrel"}) }
 func (c *Ctx) clSubscribeTx() string  { return c.txHaving("client", []string{"Suback"}) }
+
+// receivedPacketTypes: the packet types the dispatchers of package rel have a case for.
+func (c *Ctx) receivedPacketTypes(rel string) map[string]bool {
+	if c.recvCache == nil {
+		c.recvCache = map[string]map[string]bool{}
+	}
+	if v, ok := c.recvCache[rel]; ok {
+		return v
+	}
+	out := map[string]bool{}
+	_, sn := c.dispatcherOf(rel, pkPackets, "Packet")
+	for _, t := range sn {
+		out[t] = true
+	}
+	_, mq := c.dispatcherOf(rel, pahoPkts, "ControlPacket")
+	for _, t := range mq {
+		out[t] = true
+	}
+	if len(out) == 0 {
+		out = nil
+	}
+	c.recvCache[rel] = out
+	return out
+}
